@@ -109,6 +109,29 @@ static int runLoops(const std::vector<Loop> &loops, bool &exercised, int limit)
 
 // everything the child does; returns "" or a failure message
 static bool exercisedReinit = false;
+static int transientExcess = 0;  // occurrences of the known finding below (counted, reported as a label)
+// Known finding (known_findings.json, C13 "tbb-lowered-limit-transient"): TBB applies a LOWERED max_allowed_parallelism to
+// new worker requests only; workers still active from the phase under the higher limit (the lazily started default, or a
+// larger n) may take part in one more loop.  That excess is excluded here by construction - and counted - when, and only
+// when, all of this holds: TBB back end, the limit was just lowered, the excess stays within the previous limit, and the
+// same loops run within the new limit after a pause of 200 ms.  A persistent excess is a violation as before.
+static bool knownTransientExcess(const std::vector<Loop> &loops, bool &exercised, int want, int prevLimit, int &w)
+{
+#if defined(RKCOMMON_TASKING_TBB)
+  if (prevLimit > want && w > want && w <= prevLimit) {
+    std::this_thread::sleep_for(std::chrono::milliseconds(200));
+    const int w2 = runLoops(loops, exercised, want);
+    if (w2 <= want) {
+      ++transientExcess;
+      return true;
+    }
+    w = w2;
+  }
+#else
+  (void)loops, (void)exercised, (void)want, (void)prevLimit, (void)w;
+#endif
+  return false;
+}
 static std::string childBody(const Case &c, bool &exercised)
 {
   std::ostringstream err;
@@ -147,8 +170,9 @@ static std::string childBody(const Case &c, bool &exercised)
     err << "after first initTaskingSystem(" << c.first << ") numTaskingThreads() is " << reported << ", expected " << expect;
     return err.str();
   }
+  int prevLimit = c.preLoops.empty() ? 0 : std::max(hw, online);  // the lazily started back end used the hardware default
   int worst = runLoops(c.firstLoops, exercised, reported);
-  if (worst > reported) {
+  if (worst > reported && !knownTransientExcess(c.firstLoops, exercised, reported, prevLimit, worst)) {
     err << "after initTaskingSystem(" << c.first << ") [" << reported << " threads] " << worst << " threads ran parallel_for bodies at the same time";
     return err.str();
   }
@@ -181,7 +205,8 @@ static std::string childBody(const Case &c, bool &exercised)
     stopReinit = true;
     if (reinit.joinable())
       reinit.join();
-    if (w > want) {
+    const int before = &s == &c.steps[0] ? reported : std::max(1, (&s - 1)->n);
+    if (w > want && !knownTransientExcess(s.loops, exercised, want, before, w)) {
       err << "after initTaskingSystem(" << n << ") " << w << " threads ran parallel_for bodies at the same time";
       if (reinits)
         err << " (another thread re-initialised with the same count " << reinits << " times meanwhile)";
@@ -210,6 +235,8 @@ static void run_case(const Case &c, pbt::Ctx &ctx)
       cc.label("limit-exercised");
     if (exercisedReinit)
       cc.label("re-initialised by another thread while loops ran");
+    if (transientExcess)
+      cc.label("KNOWN-FINDING excluded: transient excess right after the TBB limit was lowered");
     if (!msg.empty())
       throw pbt::Failure{msg};
   });
